@@ -3,6 +3,7 @@ package sim
 import (
 	"errors"
 	"fmt"
+	"net/http"
 	"strings"
 	"sync"
 	"time"
@@ -88,6 +89,9 @@ func C19Scenario() *Scenario {
 				m := v1alpha1.ResponseUnmarshallModeStrict
 				wh.ResponseUnmarshallMode = &m
 			}
+			// the code under test is the HTTP client: a genuine http.Transport over
+			// in-memory connections, so that its timeouts are net/http's own
+			http.DefaultTransport = PipeTransport(w)
 			hook, err := hooks.NewHook(&v1alpha1.Hook{Webhook: wh}, fmt.Sprintf("c19-%d", w.Incs), common.CompositeController, common.SyncHook)
 			if err != nil {
 				panic(err)
@@ -147,7 +151,7 @@ func C19Scenario() *Scenario {
 				return []byte(fmt.Sprintf(`{"status":{"call":%d},"children":[]%s}`, id, extra))
 			}
 			hdr := map[string]string{}
-			behaviours := []string{"unknown-field-etag", "200", "200-etag", "304", "412", "429-num", "429-date", "429-none", "429-junk", "other", "unknown-field", "duplicate-field", "bad-json", "stall", "refused", "200-etag", "200-etag-reused", "other-etag"}
+			behaviours := []string{"unknown-field-etag", "200", "200-etag", "304", "412", "429-num", "429-date", "429-none", "429-junk", "other", "unknown-field", "duplicate-field", "bad-json", "stall", "refused", "200-etag", "200-etag-reused", "other-etag", "slow-body"}
 			b := behaviours[w.T.Pick(len(behaviours), "behaviour")]
 			call.behaviour = b
 			call.expectKnown = true
@@ -254,6 +258,10 @@ func C19Scenario() *Scenario {
 				return HookAnswer{Code: 200, Body: []byte(fmt.Sprintf(`{"status":{"call":%d},"children":[],"children":[]}`, id))}
 			case "bad-json":
 				return HookAnswer{Code: 200, Body: []byte(`{"status":{"call":`)}
+			case "slow-body":
+				// status line and headers at once, the body only after the time limit of the
+				// call has passed: not an answer within the time limit
+				return HookAnswer{Code: 200, Header: map[string]string{slowBodyHeader: fmt.Sprint(3 * timeoutS)}, Body: body("")}
 			case "stall":
 				return HookAnswer{Stall: true}
 			case "refused":
